@@ -31,7 +31,11 @@ class Check(BaseCheck):
             cols = int(rng.integers(1, 4))
             mode = ["unit", "unit", "offset", "tiny"][int(rng.integers(0, 4))]
             shape = lambda a: {"unit": a, "offset": 1e4 + 1e-2 * a, "tiny": 1e-9 * a}[mode]   # noqa: E731
-            yield dict(v=v, t=t, name=c["name"] + ":" + mode, vf=shape(rng.normal(size=(len(v), cols))), tf=shape(rng.normal(size=(len(t), cols))),
+            vf = shape(rng.normal(size=(len(v), cols))); tf = shape(rng.normal(size=(len(t), cols)))
+            fdt = "float64"
+            if mode == "unit" and rng.random() < 0.4:       # integer-typed functions (labels, counts): same values for the model
+                fdt = "int64"; vf = np.round(3 * vf); tf = np.round(3 * tf)
+            yield dict(v=v, t=t, name=c["name"] + ":" + mode, vf=vf, tf=tf, fdt=fdt, pres=c.get("pres"), vdtype=c.get("vdtype"),
                        weighted=bool(rng.random() < 0.5), n=int(rng.integers(1, 5)), squeeze=bool(cols == 1 and rng.random() < 0.7))
 
     def correspond(self, drv, stats):
@@ -39,11 +43,12 @@ class Check(BaseCheck):
         for c in self.cases(self.seed, 30 if self.quick else 500):
             v, t = c["v"], c["t"]
             with core.quiet():
-                m = TriaMesh(v, t)
-            vf = c["vf"][:, 0] if c["squeeze"] else c["vf"]
-            tf = c["tf"][:, 0] if c["squeeze"] else c["tf"]
+                m = TriaMesh(*gen.arrays(c))
+            vf = (c["vf"][:, 0] if c["squeeze"] else c["vf"]).astype(c["fdt"])
+            tf = (c["tf"][:, 0] if c["squeeze"] else c["tf"]).astype(c["fdt"])
             stats.case(core.mesh_key(v, t, c["vf"][0].tolist(), c["weighted"], c["n"]),
-                       cls=["class:" + c["name"], "cols:%d" % c["vf"].shape[1], "weighted:%s" % c["weighted"], "n:%d" % c["n"]],
+                       cls=["class:" + c["name"], "cols:%d" % c["vf"].shape[1], "weighted:%s" % c["weighted"], "n:%d" % c["n"], "f-dtype:" + c["fdt"],
+                            "pres:%s" % (c.get("pres") or "plain"), "int-coords:%s" % (c.get("vdtype") == "int64")],
                        sample=dict(name=c["name"], nv=len(v), nt=len(t), cols=int(c["vf"].shape[1]), weighted=c["weighted"], n=c["n"]))
             r1 = core.call(m.map_tfunc_to_vfunc, tf, c["weighted"])
             m1 = wire.Reply(drv.ask("t2v %d %s %s %s" % (int(c["weighted"]), wire.verts(v), wire.elems(t), mat(c["tf"]))))
@@ -55,6 +60,14 @@ class Check(BaseCheck):
                 mm = read_mat(mi) if mi.status == "ok" else None
                 if ri[0] != "ok" or mm is None or np.max(np.abs(np.asarray(ri[1]).reshape(rows, -1) - mm)) > 1e-9 * max(np.abs(mm).max(), 1e-300) * (1e-3 if nm == "smooth_vfunc" and "offset" in c["name"] else 1.0) + 0.0:
                     fails.append(core.Failure("correspondence", nm + " vs model", "%s: impl %s" % (c["name"], str(ri)[:80]), dict(c, fn=nm)))
+            # smooth_ on the object itself: v := smooth_vfunc(v, n), connectivity untouched
+            def do_smooth():
+                m4 = TriaMesh(*gen.arrays(c)); m4.smooth_(c["n"]); return np.array(m4.v, dtype=float), np.array(m4.t)
+            r4 = core.call(do_smooth)
+            m4 = wire.Reply(drv.ask("smooth %d %s %s %s" % (c["n"], wire.verts(v), wire.elems(t), mat(v))))
+            mm = read_mat(m4) if m4.status == "ok" else None
+            if r4[0] != "ok" or mm is None or not np.array_equal(r4[1][1], t) or np.max(np.abs(r4[1][0] - mm)) > 1e-9 * max(np.abs(mm).max(), 1e-300):
+                fails.append(core.Failure("correspondence", "smooth_ vs model", "%s: impl %s" % (c["name"], str(r4)[:80]), dict(c, fn="smooth_")))
             if len(fails) > 6:
                 break
         return fails
@@ -75,7 +88,7 @@ class Check(BaseCheck):
         v = np.asarray(case["v"], float); t = np.asarray(case["t"], dtype=np.int64)
         vf = np.asarray(case["vf"], float); tf = np.asarray(case["tf"], float); n = int(case["n"])
         with core.quiet():
-            m = TriaMesh(v, t)
+            m = TriaMesh(*gen.arrays(case))
         area = corr_fem.tri_geom(v, t)[4]
         try:
             with core.quiet():
@@ -127,7 +140,7 @@ class Check(BaseCheck):
         if np.max(np.abs(lin)) > 1e-8 * max(1, np.abs(vf).max()):
             return core.Violation("smooth-linear", "smoothing is not linear", case)
         with core.quiet():
-            m2 = TriaMesh(v, t); t0 = m2.t.copy(); m2.smooth_(n)
+            m2 = TriaMesh(*gen.arrays(case)); t0 = m2.t.copy(); m2.smooth_(n)
             ref = np.asarray(m.smooth_vfunc(v, n))
         if not np.array_equal(m2.t, t0) or np.max(np.abs(m2.v - ref)) > tol * max(1, np.abs(v).max()):
             return core.Violation("smooth_", "smooth_(n) is not v := smooth_vfunc(v, n) with untouched connectivity", case)
